@@ -109,16 +109,23 @@ func runC06(c *core.Ctx) {
 		a := rule(c, "C06.R2")
 		for _, call := range core.FindCalls(commit, core.CallsTo(initKM)) {
 			ev := errVarOf(call)
-			okk, w, hit := condMust(c, commit, call, func(in ssa.Instruction) bool {
-				r, ok := in.(*ssa.Return)
-				return ok && len(r.Results) == 1 && ev(r.Results[0])
-			}, isRB, []string{"F:*sPessimistic*"})
+			q := &core.Q{Fn: commit, NoPass: isRB, NoEdge: func(e core.Edge) bool {
+				if m, t := core.EdgeTruth(e, core.PIsNil(ev)); m && t {
+					return true // success continuation
+				}
+				return glob("F:*sPessimistic*", p.EdgeAtom(e))
+			}}
+			found, w, hit := q.Reach(call, func(in ssa.Instruction) bool {
+				return core.IsReturn(in) || core.InstrIs(core.CallsTo(execute))(in)
+			})
 			key := fname(commit) + " init failure ⇒ pessimistic rollback"
-			if okk {
+			if !found {
 				a.ok(key, call, "")
 			} else {
 				a.viol(key, hit, "Commit of a pessimistic transaction can fail in initKeysAndMutations without releasing its pessimistic locks: "+a.w(w))
 			}
+			// the error test itself must exist
+			a.check(len(ifsOn(commit, core.PIsNil(ev))) >= 1, fname(commit)+" tests the init error", call, "", "the result of initKeysAndMutations is not tested")
 		}
 		for _, rb := range core.FindCalls(commit, core.CallsTo(asyncRB)) {
 			ds := p.Prov().Desc(argOf(rb, 1))
@@ -436,7 +443,7 @@ func runC06(c *core.Ctx) {
 						return false
 					}
 					cl := ci.Call.StaticCallee()
-					return cl != nil && cl.String() == "(*sync.WaitGroup).Add" && descHas(c, ci.Call.Args[0], "WaitGroup")
+					return cl != nil && cl.String() == "(*sync.WaitGroup).Add" && descHas(c, ci.Call.Args[0], "WaitGroup)#0")
 				}
 				gg, wit := core.MustPassBefore(fn, in, isAdd)
 				a.check(gg, key, in, "registered with the store's wait group", "a goroutine that can send RPCs is started without registering in the store's wait group (cannot be drained): "+a.w(wit))
